@@ -225,6 +225,48 @@ def disconnect_rule(check, P):
     return n
 
 
+def lifecycle_rule(check, P):
+    """A writer object can be reused (disconnect, then write again reconnects).  write() and connect() silently do
+    nothing once the shutdown flag is set -- that is the signal handler's way of ending the process -- so no call of
+    the public lifecycle API may set it: from 'not shut down', connect / disconnect(wait or not) / write / flush end
+    in 'not shut down' on every path (an inductive invariant; the constructor gives the base case)."""
+    W = pw_world(P)
+    I = W.I
+    n = 0
+    ci = P.cls("PrintrunWriter")
+    x0 = I.static_heap[W.ref("pw").addr]
+    flag = [k for k in x0.fields if "shutdown" in k]
+    if len(flag) != 1:
+        check.undecided("R9", f"the shutdown flag of PrintrunWriter is not a single field the analysis recognises ({flag})")
+        return 0
+    flag = flag[0]
+    statement = Bytes(Str((Text("line"),)), "utf-8")
+    scenarios = [("connect", ()), ("disconnect", (TRUE,)), ("disconnect", (FALSE,)), ("write", (statement,)), ("flush", ())]
+    for name, args in scenarios:
+        if ci.lookup(name) is None:
+            continue
+        for connected in (True, False):
+            def setup(I_, connected=connected):
+                pw = I_.heap[W.ref("pw").addr]
+                pw.fields["_device"] = DEV if connected else NONE
+                pw.fields["_device_error"] = NONE
+                pw.fields[flag] = FALSE
+            seen = 0
+            for path in I.explore(setup, lambda I_, _: W.call_method(I_, "pw", name, args), max_dev=None, max_paths=3000):
+                n += 1
+                seen += 1
+                after = path.heap[W.ref("pw").addr].fields.get(flag)
+                label = f"{name}({', '.join(repr(a.v) if isinstance(a, Const) else '<statement>' for a in args)}) on a {'connected' if connected else 'disconnected'} writer"
+                if after == FALSE:
+                    check.ok("R9", f"{label}: still usable afterwards")
+                else:
+                    check.violation("R9", f"lifecycle:{name}:{flag}",
+                                    f"{label} {'returns' if path.outcome == 'return' else 'raises'} with {flag} = {after!r}: from then on connect() and write() "
+                                    "return at once without sending anything, although the writer object was not shut down by a signal", [decisions_text(path)])
+            check.floor(seen >= 1, f"C16.R9: {name} on a {'connected' if connected else 'disconnected'} writer has no abstract path")
+    return n
+
+
 def delegation_rule(check, P):
     n = 0
     data = Bytes(Str((Text("line"),)), "utf-8")
@@ -252,7 +294,9 @@ def run(check, repo, tier):
     check.rule("R6", "a reading requested by a statement is available when its write() returns: an 'ok ...' report is parsed before the acknowledgement is "
                      "signalled, every device line updates the readings again (per-line de-duplication), earlier readings are kept (rules R1, R3, R4 of C18)")
     P = Program(repo)
-    n = write_rule(check, P) + callback_rules(check, P) + disconnect_rule(check, P) + delegation_rule(check, P)
+    check.rule("R9", "a writer stays usable: connect / disconnect(wait or not) / write / flush never set the shutdown flag (only the signal handler does), "
+                     "so a later write() connects and sends instead of returning silently")
+    n = write_rule(check, P) + callback_rules(check, P) + disconnect_rule(check, P) + delegation_rule(check, P) + lifecycle_rule(check, P)
     from . import c18
     from .c13 import _Remap
     remap = _Remap(check, {"R1": "R6", "R3": "R6", "R4": "R6"})
